@@ -32,7 +32,7 @@
 #include "hdf.h"
 #include "hk.h"
 #ifndef HCHUNKS_C
-#define HCHUNKS_C "/repo/hdf/src/hchunks.c"
+#define HCHUNKS_C "hdf/src/hchunks.c" /* resolved through -I<REPO> (vk.cc_harness) */
 #endif
 #include HCHUNKS_C
 
